@@ -191,8 +191,10 @@ static void part2_fft(Ctx& ctx, uint64_t m) {
 }
 
 // ---- part 3: public API under every cfg -------------------------------------------------------------
-static void part3(Ctx& ctx, const ApiGroup& G0, const BoxOpts& o, const std::vector<CpuCfg>& cf) {
+static void part3(Ctx& ctx, const ApiGroup& G0, const BoxOpts& o0, const std::vector<CpuCfg>& cf) {
   // run the same group under every cfg; cases are generated in the same order
+  BoxOpts o = o0;
+  if (G0.fam != F_VEC && G0.fam != F_NORM) o.inplace = false;  // same-pointer calls for the integer families (what an inverse DFT leaves in a consumed source is unspecified)
   std::vector<std::vector<std::pair<ApiCase, ExecResult>>> runs(cf.size());
   for (size_t ci = 0; ci < cf.size(); ++ci) {
     ApiGroup G = G0; G.cfg = cf[ci];
@@ -423,6 +425,7 @@ int main(int argc, char** argv) {
   ctx.parallel(items.size(), [&](uint64_t i) { const It& it = items[i]; if (it.kind == 0) part2_pointwise(ctx, it.v); else if (it.kind == 1) part2_dot(ctx, it.v); else part2_fft(ctx, it.v); }, "floating-point pairs");
   BoxOpts o;
   o.cf = {CFG_NATIVE};
+  o.inplace = true;  // the same-pointer calls too: an in-place fast path of an accelerated kernel must agree with the portable code
   if (th) o.Ns = {2, 4, 8, 16, 32, 64, 1024};
   std::vector<CpuCfg> cf = cfgs(true);  // all four masks: native first
   std::vector<ApiGroup> groups = api_groups(o);
